@@ -361,7 +361,13 @@ def grep_forbidden():
                 continue
             p = os.path.join(root, fn)
             incomment = 0
-            for i, line in enumerate(open(p, encoding="utf-8"), 1):
+            try:
+                lines = open(p, encoding="utf-8").read().splitlines(True)
+            except FileNotFoundError:
+                # a generated file (Mtv/Gen) that another property's check is regenerating right now: a module that
+                # needs it fails its own build while it is missing
+                continue
+            for i, line in enumerate(lines, 1):
                 # strip block and line comments (coarse but conservative)
                 s = line
                 out = ""
